@@ -108,6 +108,11 @@ R5  HC/CO clamping rules (a) (b) (c) applied in the documented order.  The five 
     a new construction or `self`) is run like a helper with the record for `self`.  When the code's break point / level sits on another mode's certification number than the documented
     one, the report names both modes (`the code's break point is the TAKEOFF calibration flow, documented the CLIMB
     one`).  Two embedded preludes (documented chain; flatten rule tested first) are the positive controls.
+    When no per-point expression reads the five scalars under their documented names (the fit travels in a record, a
+    tuple, under other names - `fit.x_intercept`, `fit[4]`), the fit is read off the per-point expressions by role: the
+    data scalar an order comparison holds a per-point quantity against is the break point, `10 ** e` with e a data
+    scalar is the level, `10 ** (a * L + b)` with L per-point is the slanted line (slope a, offset b); each role must
+    show exactly one value per case, otherwise UNDECIDED.
 
 Not decided: MEEM, the HC/CO bilinear fit's numerical behaviour, anything
 phrased over the whole real input range (finiteness, sign, monotone in value).
@@ -2097,6 +2102,7 @@ class ScalarRun:
         self.snapshot = None
         self.snap_line = 0
         self.exited = False
+        self.roles = None        # role-based reading of the fit (see role_use): {'breaks': [], 'levels': [], 'lines': []}
 
     # -- expressions --------------------------------------------------------
     def ev(self, e):
@@ -2625,6 +2631,7 @@ class ScalarRun:
                         helpers=self.helpers, pointwise=self.pointwise, _depth=self._depth + 1, records=self.records)
         sub.log_args = self.log_args
         sub.notes = self.notes
+        sub.roles = self.roles
         sub.run()
         return sub.returned
 
@@ -2670,10 +2677,96 @@ class ScalarRun:
 
     def note_use(self, expr, value, st):
         """the first array expression that reads one of the tracked scalars fixes the fit"""
+        if self.roles is not None and value is OPQ and expr is not None:
+            self.role_use(expr, st)
         if self.snapshot is None and value is OPQ and expr is not None:
             if any(isinstance(n, ast.Name) and isinstance(n.ctx, ast.Load) and n.id in self.tracked for n in ast.walk(expr)):
                 self.snapshot = {k: self.env.get(k) for k in self.tracked}
                 self.snap_line = getattr(st, 'lineno', 0)
+
+    def _data_scalar(self, e):
+        """the number `e` is here when it is a scalar of the certification data (not the same number whatever the data)"""
+        v = self.ev(e)
+        if not isinstance(v, Fraction):
+            return None
+        saved = self.env, self.tables
+        self.env, self.tables = {}, {}
+        try:
+            bare = self.ev(e)
+        except Undecidable:
+            bare = OPQ
+        finally:
+            self.env, self.tables = saved
+        return None if isinstance(bare, Fraction) else v
+
+    def _affine(self, e, atoms):
+        """`e` as a * L + b, L the one per-point quantity it reads (its spellings collected in `atoms`)"""
+        v = self.ev(e)
+        if isinstance(v, bool):
+            v = Fraction(int(v))
+        if isinstance(v, Fraction):
+            return Fraction(0), v
+        if v is not OPQ:
+            raise Undecidable(f'`{norm(e)[:60]}` in the exponent of a fitted segment is not a number of the log-log plane')
+        if isinstance(e, ast.BinOp) and isinstance(e.op, (ast.Add, ast.Sub, ast.Mult, ast.Div)):
+            (la, lb), (ra, rb) = self._affine(e.left, atoms), self._affine(e.right, atoms)
+            if isinstance(e.op, ast.Add):
+                return la + ra, lb + rb
+            if isinstance(e.op, ast.Sub):
+                return la - ra, lb - rb
+            if isinstance(e.op, ast.Mult):
+                if la == 0:
+                    return lb * ra, lb * rb
+                if ra == 0:
+                    return la * rb, lb * rb
+            elif ra == 0 and rb != 0:
+                return la / rb, lb / rb
+            raise Undecidable(f'`{norm(e)[:60]}`: the exponent of a fitted segment is not a straight line in the per-point quantity')
+        if isinstance(e, ast.UnaryOp) and isinstance(e.op, (ast.USub, ast.UAdd)):
+            a, b = self._affine(e.operand, atoms)
+            return (-a, -b) if isinstance(e.op, ast.USub) else (a, b)
+        if isinstance(e, (ast.Name, ast.Subscript, ast.Attribute, ast.Call)):
+            base = e
+            while isinstance(base, ast.Subscript):
+                base = base.value
+            atoms.add(norm(base))
+            return Fraction(1), Fraction(0)
+        raise Undecidable(f'`{norm(e)[:60]}`: the exponent of a fitted segment is not a straight line in the per-point quantity')
+
+    def role_use(self, expr, st):
+        """The fit read off the per-point expressions by what each scalar *does* there, whatever carries it (a local, a
+        field or position of a record, a tuple): a scalar of the certification data an order comparison holds a
+        per-point quantity against is the break point; `10 ** e` with e such a scalar is the horizontal level; `10 ** e`
+        with e = a * L + b, L per-point, is the slanted line of slope a and offset b."""
+        for x in ast.walk(expr):
+            if isinstance(x, ast.Compare) and len(x.ops) == 1 and isinstance(x.ops[0], (ast.Lt, ast.LtE, ast.Gt, ast.GtE)):
+                l, r = x.left, x.comparators[0]
+                for sc, other in ((l, r), (r, l)):
+                    if self.ev(other) is OPQ:
+                        v = self._data_scalar(sc)
+                        if v is not None:
+                            self.roles['breaks'].append((v, getattr(st, 'lineno', 0)))
+            elif isinstance(x, ast.Call) and call_name(x).split('.')[-1] in ('less', 'less_equal', 'greater', 'greater_equal') \
+                    and len(x.args) == 2 and not x.keywords:
+                for sc, other in ((x.args[0], x.args[1]), (x.args[1], x.args[0])):
+                    if self.ev(other) is OPQ:
+                        v = self._data_scalar(sc)
+                        if v is not None:
+                            self.roles['breaks'].append((v, getattr(st, 'lineno', 0)))
+            elif (isinstance(x, ast.BinOp) and isinstance(x.op, ast.Pow) and self.ev(x.left) == Fraction(10)) \
+                    or (isinstance(x, ast.Call) and call_name(x).split('.')[-1] == 'power' and len(x.args) == 2 and not x.keywords
+                        and self.ev(x.args[0]) == Fraction(10)):
+                ex = x.right if isinstance(x, ast.BinOp) else x.args[1]
+                v = self.ev(ex)
+                if isinstance(v, Fraction):
+                    if self._data_scalar(ex) is not None:
+                        self.roles['levels'].append((v, getattr(st, 'lineno', 0)))
+                elif v is OPQ:
+                    atoms = set()
+                    a, b = self._affine(ex, atoms)
+                    if len(atoms) != 1:
+                        raise Undecidable(f'the exponent `{norm(ex)[:60]}` reads {len(atoms)} per-point quantities')
+                    self.roles['lines'].append(((a, b), getattr(st, 'lineno', 0)))
 
     def scan_uses(self, stmts):
         """statements that are not executed (their test or loop is not a scalar matter): what they read still counts"""
@@ -2700,6 +2793,8 @@ class ScalarRun:
         if isinstance(st, ast.Assign):
             v = self.ev(st.value)
             self.note_use(st.value, v, st)
+            if self.roles is not None and v is not OPQ and any(isinstance(t, ast.Subscript) for t in st.targets):
+                self.role_use(st.value, st)          # `A[mask] = 10 ** level`: a scalar written to the points
             for t in st.targets:
                 self.bind(t, v, st)
         elif isinstance(st, ast.AnnAssign):
@@ -2847,8 +2942,23 @@ def hcco_evaluate(fn, consts, tables=('x_EI', 'ff_cal'), helpers=None, records=N
                             enums={'ThrustMode': THRUST_MODES}, records=records)
             snap = run.run()
             if snap is None:
-                raise Undecidable('the function returns before any evaluation point is classified' if run.exited else
-                                  'no array expression reads the fit parameters ' + ', '.join(HCCO_TRACKED))
+                # no per-point expression reads the five scalars under their documented names (they travel in a record,
+                # a tuple, under other names): the fit is read off the per-point expressions by role instead
+                run = ScalarRun(fn, run.tables, consts, (), helpers=helpers, enums={'ThrustMode': THRUST_MODES}, records=records)
+                run.roles = {'breaks': [], 'levels': [], 'lines': []}
+                run.run()
+                seen = {k: sorted({v for v, _ in vs}) for k, vs in run.roles.items()}
+                words = {'breaks': 'break point compared with the per-point flows', 'levels': 'horizontal level 10 ** e',
+                         'lines': 'slanted line 10 ** (a * L + b)'}
+                for k in ('breaks', 'levels', 'lines'):
+                    if len(seen[k]) != 1:
+                        raise Undecidable(f'the fit parameters {", ".join(HCCO_TRACKED)} are not read by name where the evaluation points '
+                                          f'are classified, and the per-point expressions show {len(seen[k])} different values in the '
+                                          f'role "{words[k]}" (lines {sorted({ln for _, ln in run.roles[k]})}) for: {_describe_case(c, zero)}')
+                got = (seen['breaks'][0], seen['levels'][0]) + seen['lines'][0]
+                if got != want:
+                    bad.append((c, rule, want, got, zero))
+                continue
             miss = [k for k in HCCO_TRACKED if not isinstance(snap.get(k), Fraction)]
             if miss:
                 raise Undecidable(f'{", ".join(miss)} not a scalar of the certification data where the evaluation points '
